@@ -160,22 +160,25 @@ Definition status_count (s : sstate) (blockmax : nat) : counters :=
   fold_left (status_step s) (seq 0 blockmax) (mkcnt 0 0 0 0 0 0 0).
 
 (* ------------------------------------------------------------------------------------------------ *)
-(* status.c:141-150: the per-disk loop logs the files with a zero sub-second time stamp, name NOT escaped:
-     if (disk_file_zerosubsecond < 50)  log_tag("zerosubsecond:%s:%s: \n", disk->name, file->sub);
-     if (disk_file_zerosubsecond == 50) log_tag("zerosubsecond:%s:%s: (more follow)\n", disk->name, file->sub); *)
+(* status.c:141-150: the per-disk loop logs the files with a zero sub-second time stamp (name through esc_tag):
+     if (disk_file_zerosubsecond < 50)  log_tag("zerosubsecond:%s:%s: \n", disk->name, esc_tag(file->sub, esc_buffer));
+     if (disk_file_zerosubsecond == 50) log_tag("zerosubsecond:%s:%s: (more follow)\n", disk->name, esc_tag(file->sub, esc_buffer)); *)
 Definition t_zerosub : bstr := [122; 101; 114; 111; 115; 117; 98; 115; 101; 99; 111; 110; 100].
 Definition t_more_follow : bstr := [40; 109; 111; 114; 101; 32; 102; 111; 108; 108; 111; 119; 41].
-Definition zerosub_line (d sub tail : bstr) : bstr := t_zerosub ++ 58 :: d ++ 58 :: cstr sub ++ 58 :: 32 :: tail ++ [10].
 Definition is_zerosub (f : file) : bool := (f_nsec f =? -1)%Z || (f_nsec f =? 0)%Z.
 
-Fixpoint zerosub_lines (d : bstr) (fs : list file) (k : N) : bstr :=
+(* the logged entries: (name, text after the space of the last field); unsigned disk_file_zerosubsecond *)
+Fixpoint zerosub_entries (fs : list file) (k : N) : list (bstr * bstr) :=
   match fs with
   | [] => []
   | f :: t =>
     if is_zerosub f then
       let k' := (k + 1) mod 4294967296 in
-      (if k' <? 50 then zerosub_line d (f_sub f) []
-       else if k' =? 50 then zerosub_line d (f_sub f) t_more_follow else [])
-      ++ zerosub_lines d t k'
-    else zerosub_lines d t k
+      (if k' <? 50 then [(f_sub f, [])]
+       else if k' =? 50 then [(f_sub f, t_more_follow)] else [])
+      ++ zerosub_entries t k'
+    else zerosub_entries t k
   end.
+
+Definition zerosub_rec (d : bstr) (p : bstr * bstr) : record := ROther [t_zerosub; d; esc_tag (fst p); 32 :: snd p].
+Definition zerosub_lines (d : bstr) (fs : list file) (k : N) : bstr := print_log (map (zerosub_rec d) (zerosub_entries fs k)).
